@@ -180,9 +180,8 @@ int pthread_mutex_trylock(pthread_mutex_t *m) {
   return 0;
 }
 
-int pthread_mutex_unlock(pthread_mutex_t *m) {
-  if (!active()) return real_pthread_mutex_unlock()(m);
-  sim::Harness harness_scope;
+// the effect of an unlock without the decision point that follows it
+static long sim_mutex_release(pthread_mutex_t *m) {
   MutexState &s = mstate(m);
   long idx = s.index;
   if (g_obs) {
@@ -195,7 +194,14 @@ int pthread_mutex_unlock(pthread_mutex_t *m) {
   s.owner = -1;
   event(K_MUNLOCK, idx, 0);
   wake(K_MLOCK, idx);
-  point(K_MUNLOCK, idx);
+  return idx;
+}
+
+int pthread_mutex_unlock(pthread_mutex_t *m) {
+  if (!active()) return real_pthread_mutex_unlock()(m);
+  sim::Harness harness_scope;
+  long idx2 = sim_mutex_release(m);
+  point(K_MUNLOCK, idx2);
   return 0;
 }
 
@@ -253,8 +259,9 @@ int pthread_cond_destroy(pthread_cond_t *c) {
 static int sim_cond_wait(pthread_cond_t *c, pthread_mutex_t *m, bool timed) {
   sim::Harness harness_scope;
   long ci = cond_index(c);
-  // atomically release the mutex and wait; a timed wait may also return by "timeout" (spurious wake-ups are legal anyway)
-  pthread_mutex_unlock(m);
+  // release the mutex and start waiting ATOMICALLY (no decision point in between, otherwise a signal sent after the
+  // release and before the wait would be lost); a timed wait may also return by "timeout" (spurious wake-ups are legal)
+  sim_mutex_release(m);
   if (!timed) block_on(K_GATE, 0x20000000 + ci);
   else point(K_GATE, 0x20000000 + ci);
   pthread_mutex_lock(m);
